@@ -23,6 +23,9 @@ import (
 //       structs twice: `f := func(){ g := func(){..} }; f(); f()` stopped the compiler).
 
 func c16Round4(c *Ctx, p *Prog, bk, wp, ssap *packages.Package) {
+	if wp != nil {
+		c16MemberlessCompare(c, p, wp)
+	}
 	c16EmbeddedPeerMethods(c, p, wp)
 	c16NextSlots(c, p, bk, ssap)
 	c16AnonymousOnce(c, p, bk)
@@ -344,4 +347,77 @@ func c16SanityConvert(c *Ctx, p *Prog, ssap *packages.Package) {
 	if !found {
 		c.Undecided(rule, "checkInstr: Convert", p.Pos(fd.Pos()), "case *Convert not found")
 	}
+}
+
+// C16 rule memberless-compare-handled (added after a defect was found on the unchanged tree by differential probing:
+// aStruct.emitEq / emitCompare build their result inside a loop over the fields and emitted nothing for a type without
+// fields — struct{}, [0]T — where an i32 is expected; comparing, boxing or using such a value as a map element gave a
+// module that does not validate). A comparison emitter that builds its result in a loop over a member list handles the
+// empty list explicitly (`if len(<list>) == 0 { … append … }`).
+func c16MemberlessCompare(c *Ctx, p *Prog, wir *packages.Package) {
+	const rule = "memberless-compare-handled"
+	info := wir.TypesInfo
+	n := 0
+	for _, name := range sortedDeclNames(wir) {
+		if !strings.HasSuffix(name, ".emitEq") && !strings.HasSuffix(name, ".emitCompare") {
+			continue
+		}
+		fd := AllFuncDecls(wir)[name]
+		if fd.Body == nil {
+			continue
+		}
+		// loops over a member list that append instructions
+		var lists []string
+		for _, s := range fd.Body.List {
+			var x ast.Expr
+			var body *ast.BlockStmt
+			switch l := s.(type) {
+			case *ast.RangeStmt:
+				x, body = l.X, l.Body
+			default:
+				continue
+			}
+			appends := false
+			ast.Inspect(body, func(m ast.Node) bool {
+				if call, ok := m.(*ast.CallExpr); ok {
+					if id, ok := call.Fun.(*ast.Ident); ok && id.Name == "append" {
+						appends = true
+					}
+				}
+				return true
+			})
+			if appends {
+				if t := info.TypeOf(x); t != nil {
+					if _, ok := t.Underlying().(*types.Slice); ok {
+						lists = append(lists, types.ExprString(x))
+					}
+				}
+			}
+		}
+		for _, l := range lists {
+			n++
+			handled := false
+			ast.Inspect(fd.Body, func(m ast.Node) bool {
+				ifs, ok := m.(*ast.IfStmt)
+				if !ok {
+					return true
+				}
+				cond := strings.ReplaceAll(types.ExprString(ifs.Cond), " ", "")
+				if cond == "len("+strings.ReplaceAll(l, " ", "")+")==0" {
+					ast.Inspect(ifs.Body, func(q ast.Node) bool {
+						if call, ok := q.(*ast.CallExpr); ok {
+							if id, ok := call.Fun.(*ast.Ident); ok && id.Name == "append" {
+								handled = true
+							}
+						}
+						return true
+					})
+				}
+				return true
+			})
+			c.Check(handled, rule, name+": loop over "+l, p.Pos(fd.Pos()), "the empty member list yields a constant result",
+				name+" builds the comparison's result inside a loop over "+l+" and has no case for an empty list: for a type without members (struct{}, [0]T) nothing is emitted where an i32 is expected, and every program that compares such a value, boxes it in an interface or keeps it in a map compiles to a module that does not validate")
+		}
+	}
+	c.Min(rule, "comparison emitters that loop over a member list", n, 2)
 }
